@@ -350,5 +350,9 @@ def run(tier):
 
 
 def replay(art):
+  r = art.get('replay') or {}
+  if r.get('part') == 'schedules':
+    from vf.harness import c13_sched  # pylint: disable=g-import-not-at-top
+    return c13_sched.replay(r)
   print(art.get('what'))
   return run('quick')
